@@ -28,7 +28,7 @@ for pid in ALL:
         "level_claimed": {"category": cfg.get("level", "other"), "text": cfg.get("level_text") or cfg.get("explanation", ""),
                           "design_ref": "DESIGN.md §5 " + pid},
         "level_note": cfg.get("level_note") or ("Not decided: " + cfg.get("not_decided", "") + " Assumptions: " + "; ".join(cfg.get("assumptions") or [])),
-        "technique": cfg.get("technique", TECH),
+        "technique": cfg.get("technique", TECH) + (" + bounded stand-ins (enumerated / native runs of the real function on a stated family, labelled bounded in the evidence and never counted as proved) for the parts out of the verifier's reach" if (cfg.get("bounded_go") or cfg.get("extra_llvc") or pid == "C16") else ""),
     })
 
 import subprocess
